@@ -1,4 +1,4 @@
-/* C06 — no input on any endpoint can crash the daemon or corrupt memory; malformed input costs at most the connection
+/* C06 - no input on any endpoint can crash the daemon or corrupt memory; malformed input costs at most the connection
  * that sent it.  The memory oracle is the instrumented build (ASan + UBSan abort the daemon process: the explorer
  * reports the crash with its symbolised top frames); this driver supplies the input spaces and the "only its own
  * connection" oracle.
